@@ -256,7 +256,7 @@ impl Chain {
             .collect::<Vec<_>>()
             .join(";");
         let mut users = vec![];
-        for u in CAST.iter() {
+        for u in cast_all().iter() {
             let reqs = self.hub_requests(*u);
             let wd = match self.hub_withdrawable(*u) {
                 Some(n) => n.to_string(),
@@ -274,7 +274,7 @@ impl Chain {
         }
         let tok = |t: Id| -> String {
             let mut bals = vec![];
-            for a in CAST.iter() {
+            for a in cast_all().iter() {
                 let b = self.token_balance(t, *a);
                 if b != 0 {
                     bals.push(format!("{}:{}", a, b));
@@ -320,7 +320,7 @@ impl Chain {
             None => "?".into(),
         };
         let mut holders = vec![];
-        for a in CAST.iter() {
+        for a in cast_all().iter() {
             let (bal, idx, pend) = self.reward_holder(*a);
             if bal == 0 && idx == 0 && pend == 0 {
                 continue;
@@ -365,7 +365,7 @@ impl Chain {
         };
         let regq = j(self.reg_validators().iter().map(|(v, a)| format!("{}:{}", v, a)).collect());
         let mut bank = vec![];
-        for a in CAST.iter() {
+        for a in cast_all().iter() {
             for d in 0..3u8 {
                 let b = self.bal(*a, d);
                 if *a != SWAP && b != 0 {
